@@ -28,14 +28,15 @@ func init() {
 
 func runC06(c *Ctx, r *Rec) {
 	qr := bindQueue(c, r)
-	if qr == nil {
+	cls := c.mustImpl(r, "bind", "collection", "QueueClassLike")
+	if cls == nil {
 		return
 	}
 	info := c.info("collection")
-	cms := c.methodsOf(qr.cls)
+	cms := c.methodsOf(cls)
 	for _, name := range []string{"Fork", "Split", "Join"} {
 		fd := cms[name]
-		construct := "collection." + qr.cls.Obj().Name() + "." + name
+		construct := "collection." + cls.Obj().Name() + "." + name
 		if fd == nil {
 			r.undecided("bind", construct, "", "class function not found")
 			continue
@@ -61,6 +62,30 @@ func runC06(c *Ctx, r *Rec) {
 		mapObj := func(o types.Object) types.Object { return o }
 		if lit, _ := goStmt.Call.Fun.(*ast.FuncLit); lit != nil {
 			gbody = lit.Body
+			// a literal with parameters: what is handed to it is known inside under the parameter's
+			// name; what it captures keeps its own
+			var lparams []types.Object
+			if lit.Type.Params != nil {
+				for _, f := range lit.Type.Params.List {
+					for _, nm := range f.Names {
+						lparams = append(lparams, info.Defs[nm])
+					}
+				}
+			}
+			if len(lparams) > 0 {
+				lcall := goStmt.Call
+				mapObj = func(o types.Object) types.Object {
+					if o == nil {
+						return nil
+					}
+					for i, a := range lcall.Args {
+						if isObj(info, a, o) && i < len(lparams) {
+							return lparams[i]
+						}
+					}
+					return o
+				}
+			}
 		} else if d := c.declOf(calleeOf(info, goStmt.Call)); d != nil && d.Body != nil && c.infoFor(d) == info {
 			gbody = d.Body
 			gparams := paramObjs(info, d)
@@ -349,10 +374,12 @@ func runC06(c *Ctx, r *Rec) {
 				fmt.Sprintf("Split's loop must give each value read to exactly the output yielded by one GetNext and wrap with `if !HasNext { ToStart }` before the next iteration (adds-to-next-output=%v adds=%d wrap-check=%v read-before-advance=%v)", okOne, nAdds, wrap, dom))
 		}
 	}
-	checkTokenBalanceAtBirth(c, r, "D5-token-balance", qr) // a preloaded input stream delivers every value
+	if qr != nil {
+		checkTokenBalanceAtBirth(c, r, "D5-token-balance", qr) // a preloaded input stream delivers every value
+	}
 	r.floor("D1-waitgroup-pairing", 1)
 	r.floor("D2-closure-propagation", 1)
-	r.floor("D4-loop-progress", 1)
+	r.floorSoft("D4-loop-progress", "loops", "no loop is left in the methods this rule looks at")
 }
 
 func firstStmt(b *ast.BlockStmt) ast.Stmt {
@@ -438,7 +465,64 @@ func wrapCheckFollows(info *types.Info, g *FG, loop *ast.ForStmt, iter types.Obj
 		return false
 	}
 	isToStart := func(n ast.Node) bool {
-		return nodeHas(n, func(x ast.Node) bool { return methodCallOn(info, x, iter, "ToStart") })
+		return nodeHas(n, func(x ast.Node) bool {
+			if methodCallOn(info, x, iter, "ToStart") {
+				return true
+			}
+			// ToSlot(0) is ToStart
+			if rx, mname, call, ok := methodCall(x); ok && mname == "ToSlot" && len(call.Args) == 1 && isObj(info, rx, iter) {
+				if tv, ok := info.Types[call.Args[0]]; ok && tv.Value != nil && tv.Value.String() == "0" {
+					return true
+				}
+			}
+			return false
+		})
+	}
+	// X.GetSlot() compared with the iterator's size says the same as HasNext
+	isSize := func(e ast.Expr) bool {
+		e = ast.Unparen(e)
+		for i := 0; i < 3; i++ {
+			id, ok := e.(*ast.Ident)
+			if !ok {
+				break
+			}
+			init := initOfIn(info, g.body, id)
+			if init == nil {
+				break
+			}
+			e = ast.Unparen(init)
+		}
+		return methodCallOn(info, e, iter, "GetSize")
+	}
+	moreFollow := func(cnd ast.Expr, pol bool) bool {
+		be, ok := cnd.(*ast.BinaryExpr)
+		if !ok {
+			return false
+		}
+		x, y, op := ast.Unparen(be.X), ast.Unparen(be.Y), be.Op
+		if methodCallOn(info, y, iter, "GetSlot") && isSize(x) {
+			x, y = y, x
+			switch op {
+			case token.LSS:
+				op = token.GTR
+			case token.GTR:
+				op = token.LSS
+			case token.LEQ:
+				op = token.GEQ
+			case token.GEQ:
+				op = token.LEQ
+			}
+		}
+		if !methodCallOn(info, x, iter, "GetSlot") || !isSize(y) {
+			return false
+		}
+		switch op {
+		case token.EQL, token.GEQ:
+			return !pol // slot == size is false: more values follow
+		case token.NEQ, token.LSS:
+			return pol
+		}
+		return false
 	}
 	// the read's ok result ends the loop only when it is (part of) the loop's own condition
 	if readOK != nil {
@@ -468,6 +552,9 @@ func wrapCheckFollows(info *types.Info, g *FG, loop *ast.ForStmt, iter types.Obj
 			}
 			if methodCallOn(info, c, iter, "HasNext") && pol {
 				return false // more values follow: no wrap needed on this edge
+			}
+			if moreFollow(c, pol) {
+				return false
 			}
 			if id, ok := c.(*ast.Ident); ok && readOK != nil && info.Uses[id] == readOK && !pol {
 				return false // the read found the input closed: the loop is being left
